@@ -371,6 +371,9 @@ func init() {
 			zr := zeroed.Run(def)
 			zr.Floor("return_paths", 16)
 			res.Merge(zr)
+			ue := zeroed.RunUseEmpty(def)
+			ue.Floor("reuses_of_the_receivers_backing_slice", 7)
+			res.Merge(ue)
 			sw := swapx.Run(def, core.Pkgs("./mat"))
 			sw.Floor("swaps_guarded_by_a_comparison_of_two_variables", 2)
 			res.Merge(sw)
@@ -553,6 +556,9 @@ func init() {
 			ex.Floor("offset_comparisons", 5)
 			ex.Floor("offset_lattice_tests", 1)
 			res.Merge(ex)
+			ue := zeroed.RunUseEmpty(def)
+			ue.Floor("reuses_of_the_receivers_backing_slice", 7)
+			res.Merge(ue)
 			dp := matargs.RunDoublePass(def)
 			dp.Floor("ordered_pairs_of_element_passes", 8)
 			res.Merge(dp)
@@ -943,6 +949,8 @@ func dump(argv []string) {
 		res = errx.RunStatusDropped(def, core.Pkgs(argv[1:]...))
 	case "callbackcopy":
 		res = settingsx.RunCallbackCopy(def, core.Pkgs(argv[1:]...))
+	case "useempty":
+		res = zeroed.RunUseEmpty(def)
 	case "workquery":
 		res = flagx.RunWorkQuery(def, core.Pkgs(argv[1:]...))
 	case "betascale":
